@@ -486,6 +486,50 @@ class Directed(Scenario):
             self.do("vs poll")
             self.peer_acks(sack=sack_capable)
 
+    def fam_spurious_rto_then_close(self):
+        """The peer receives everything but its acknowledgements are late: the RTO fires (one or more times), then
+        the ACK for everything arrives; then the application closes (or had closed already)."""
+        r = self.r
+        self.start(True, r.choice(["", "nagle=0", "mtu=576", "wla=0"]), rwnd=1 << 20)
+        close_first = r.random() < 0.4
+        self.do(f"vs write {r.choice([600, 3000, 9000, 20000])}")
+        # grow the window a little with prompt acks
+        for _ in range(r.randrange(0, 5)):
+            if self.dead:
+                return self.ops
+            out = self.do("vs poll")
+            if "out=[]" not in out:
+                self.peer_acks(sack=False)
+        if r.random() < 0.5:
+            self.do(f"vs write {r.choice([100, 2000, 5000])}")
+        if close_first:
+            self.do(r.choice(["vs shutdown", "vs dropw"]))
+        self.do("vs poll")
+        # acknowledgements are withheld while the retransmission timer fires
+        for _ in range(r.choice([1, 1, 2, 3])):
+            if self.dead or self.fp.get("t_rtx", "-") == "-":
+                break
+            self.do(f"vs adv {max(0, int(self.fp['t_rtx']) - self.now)}")
+            self.do("vs poll")
+        # ... and then everything the peer got is acknowledged at once
+        if not self.dead:
+            self.peer_acks(sack=r.random() < 0.5)
+            self.do("vs poll")
+        if not close_first and not self.dead:
+            self.do(r.choice(["vs shutdown", "vs dropw", "vs flush"]))
+            if r.random() < 0.5:
+                self.do("vs dropr")
+        for _ in range(12):
+            if self.dead:
+                break
+            out = self.do("vs poll")
+            if "out=[]" not in out:
+                self.peer_acks(sack=False)
+                if self.our_fin_seq is not None and r.random() < 0.7:
+                    self.inject(1, seq=self.peer_next)      # the peer closes too
+            else:
+                self.to_next_timer(jitter=False)
+
     def fam_blackhole(self):
         r = self.r
         link = r.choice([1500, 1500, 1000, 9000, 1280])
@@ -676,7 +720,7 @@ class Directed(Scenario):
                 self.do("vs poll")
 
     def run(self):
-        fam = self.r.choice([self.fam_bulk_loss, self.fam_bulk_loss, self.fam_rto_then_sack, self.fam_blackhole, self.fam_teardown, self.fam_teardown,
+        fam = self.r.choice([self.fam_bulk_loss, self.fam_bulk_loss, self.fam_rto_then_sack, self.fam_spurious_rto_then_close, self.fam_blackhole, self.fam_teardown, self.fam_teardown,
                              self.fam_receiver, self.fam_window])
         self.last_out = []
         fam()
